@@ -264,6 +264,8 @@ def rewrite_attrs(attrs, out, name, ms):
     res = []
     had_ib = False
     had_default = False
+    markers = []
+    rewrite_attrs.markers = markers
     for a in attrs:
         inner = a.strip()
         if inner.startswith('#[doc') or inner.startswith('#[deprecated') or inner.startswith('#[allow') or inner.startswith('#[macro_export'):
@@ -289,6 +291,8 @@ def rewrite_attrs(attrs, out, name, ms):
                     if base == 'IntoBytes':
                         had_ib = True
                         out.count('D2 derive(IntoBytes) -> spec raw()')
+                    if base in ('Immutable', 'FromBytes'):
+                        markers.append(base)
                     continue
                 if base == 'Default' and name in ms.defaults:
                     had_default = True
@@ -335,6 +339,85 @@ def publicise_struct(text, kind, out):
         if not fm.group(2):
             out.count('D17 field made pub')
     return head + body_text[:j + 1] + ','.join(newf) + body_text[k:]
+
+PRIM = {'u8': 1, 'u16': 2, 'u32': 4, 'u64': 8, 'U16': 2, 'U32': 4, 'U64': 8}
+
+
+def packed_fields(text):
+    """[(name, type)] of a named-field struct, in declaration order."""
+    mask = code_mask(text)
+    j = mask.find('{')
+    if j < 0:
+        return None
+    k = match_close(mask, j)
+    fields = []
+    for f in split_top(text[j + 1:k]):
+        f = re.sub(r'#\[[^\]]*\]', '', f).strip()
+        if not f:
+            continue
+        m = re.match(r'(?:pub(?:\s*\([^)]*\))?\s+)?((?:r#)?[A-Za-z_][A-Za-z0-9_]*)\s*:\s*(.+)$', f, re.S)
+        if not m:
+            return None
+        fields.append((m.group(1), ' '.join(m.group(2).split())))
+    return fields
+
+
+def enum_info(text, attrs):
+    """discriminant values and repr width of a fieldless enum"""
+    width = None
+    for a in attrs:
+        m = re.match(r'#\[repr\((u8|u16|u32|u64)\)\]', a.strip())
+        if m:
+            width = PRIM[m.group(1)]
+    mask = code_mask(text)
+    j = mask.find('{')
+    if j < 0 or width is None:
+        return None
+    k = match_close(mask, j)
+    vals = []
+    nxt = 0
+    for v in split_top(text[j + 1:k]):
+        v = re.sub(r'#\[[^\]]*\]', '', v).strip()
+        if not v:
+            continue
+        m = re.match(r'([A-Za-z_][A-Za-z0-9_]*)\s*(?:=\s*(.+))?$', v, re.S)
+        if not m:
+            return None
+        if m.group(2) is not None:
+            try:
+                nxt = int(eval(m.group(2).strip().replace('_', ''), {'__builtins__': {}}))
+            except Exception:
+                return None
+        vals.append(nxt)
+        nxt += 1
+    return dict(width=width, values=vals)
+
+
+def auto_raw(text):
+    """D2: the in-memory image of a #[repr(C, packed)] struct is its fields in declaration order
+    with no padding (checked against rustc + zerocopy by the generated Kani layout harness)."""
+    fields = packed_fields(text)
+    if not fields:
+        return None
+    parts = []
+    for (n, t) in fields:
+        if t == 'u8':
+            parts.append('seq![self.%s]' % n)
+        elif t in ('u16', 'u32', 'u64'):
+            parts.append('le%d(self.%s)' % (PRIM[t] * 8, n))
+        elif t in ('U16', 'U32', 'U64'):
+            parts.append('le%d(self.%s.v)' % (PRIM[t] * 8, n))
+        elif re.match(r'\[u8;\s*\d+\]$', t):
+            parts.append('self.%s@' % n)
+        elif re.match(r'[A-Za-z_][A-Za-z0-9_:]*$', t):
+            parts.append('self.%s.raw()' % n)
+        else:
+            return None
+    expr = parts[-1]
+    for p in reversed(parts[:-1]):
+        expr = '%s + (%s)' % (p, expr)
+    return expr
+
 
 # --------------------------------------------------------------------------------------
 # body rewrites
@@ -577,6 +660,8 @@ class Splicer:
         self.modules = modules
         self.uncovered = []
         self.degrade = {}
+        self.packed = []
+        self.enums = []
 
     def load_macros(self):
         for mod in self.module_names():
@@ -618,7 +703,7 @@ class Splicer:
             f.write('\n'.join(out.lines) + '\n')
         with open(os.path.join(self.outdir, 'map.json'), 'w') as f:
             json.dump(dict(regions=out.regions, rewrites=out.counts, fns=self.fn_index,
-                           uncovered=self.uncovered), f, indent=0)
+                           uncovered=self.uncovered, packed=self.packed, enums=self.enums), f, indent=0)
 
     # ---------------------------------------------------------------------------------
     def emit_module(self, mod):
@@ -734,10 +819,24 @@ class Splicer:
                 a2, had_ib, had_default = rewrite_attrs(attrs, out, it.name, ms)
                 out.emit('\n'.join(a2 + [it.text[it.decl_off - it.start:] if it.name in ms.private else publicise_struct(it.text[it.decl_off - it.start:], it.kind, out)]))
                 _real_out = out
+                for mk in getattr(rewrite_attrs, 'markers', []):
+                    (self._deferred_out if it.kind == 'enum' and getattr(self, '_deferred_out', None) else out).emit('impl %s for %s {}' % (mk, it.name)) if it.kind != 'enum' else None
                 if it.kind == 'enum':
                     out = self._deferred_out = getattr(self, '_deferred_out', None) or Deferred()
                 if had_ib:
                     raw = ms.raw.get(it.name)
+                    if it.kind == 'enum':
+                        en = enum_info(it.text[it.decl_off - it.start:], attrs)
+                        if en is not None:
+                            en.update(module=mod, name=it.name)
+                            self.enums.append(en)
+                            if raw is None and en['width'] == 1:
+                                raw = 'seq![*self as u8]'
+                    if raw is None and it.kind == 'struct':
+                        raw = auto_raw(it.text[it.decl_off - it.start:])
+                        if raw is not None:
+                            self.packed.append(dict(module=mod, name=it.name, fields=packed_fields(it.text[it.decl_off - it.start:])))
+                            out.count('D2 raw() derived from the repr(C, packed) field order')
                     if raw is None:
                         out.emit('impl IntoBytes for %s { uninterp spec fn raw(&self) -> Seq<u8>; #[verifier::external_body] fn as_bytes(&self) -> &[u8] { unimplemented!() } }' % it.name)
                         self.uncovered.append('%s::%s (IntoBytes layout unspecified)' % (mod, it.name))
